@@ -55,6 +55,7 @@ def install_numpy_patches():
     if "loop of ufunc does not support" not in kernels.KernelModel.strict_patterns:
         kernels.KernelModel.strict_patterns += ("loop of ufunc does not support",)
     kernels.FuncProxy.call_fallback = True
+    kernels.NpShimAF.object_empty = True
     from numpy._core import _methods
     if not isinstance(_methods.nt, _NTProxy):
         _methods.nt = _NTProxy(_methods.nt)
@@ -122,6 +123,38 @@ def make_registry(ctx, groups, both):
     return reg
 
 
+MIX_KINDS = ("scale", "offset", "affine")
+
+
+def make_mixed_registry(ctx, kind, groups):
+    """two different units of one dimension: `scale` length units xa/xg with symbolic scales; `offset` temperature units xta/xtb with
+    the SAME symbolic scale and different symbolic offsets; `affine` xta/xtb with different scales and offsets. Scales/offsets are
+    exactly equal or clearly different (outside unyt's deliberate isclose(1e-9) band, HARNESS_GUIDE lessons). -> reg, (U1, U2)"""
+    from .common import U, Or, distinct_scales, vabs
+    D = ctx.mods["unyt"].dimensions
+    reg = ctx.registry([])
+    if kind == "scale":
+        s1, s2 = ctx.real("s_X", pos=True), ctx.real("s_X2", pos=True)
+        distinct_scales(ctx, s1, s2)
+        U1, U2 = U("xa", s1, 0.0), U("xg", s2, 0.0)
+        dims = D.length
+    else:
+        s1 = ctx.real("s_X", pos=True)
+        s2 = s1 if kind == "offset" else ctx.real("s_X2", pos=True)
+        if kind == "affine":
+            distinct_scales(ctx, s1, s2)
+        o1, o2 = ctx.real("o_X"), ctx.real("o_X2")
+        ctx.assume(Or(exact_eq(o1, o2), vabs(o1 - o2) > (vabs(o1) + vabs(o2)) * 1e-3))
+        U1, U2 = U("xta", s1, o1), U("xtb", s2, o2)
+        dims = D.temperature
+    ctx.add_row(reg, U1.name, dims, U1.s, U1.o)
+    ctx.add_row(reg, U2.name, dims, U2.s, U2.o)
+    for g in groups:
+        if g in ("T", "M"):
+            ctx.add_row(reg, UNITS["A"][g], getattr(D, GROUP_DIMS[g]), ctx.real("s_" + g, pos=True))
+    return reg, (U1, U2)
+
+
 def group_dims(ctx, spec):
     """dimension (sympy) of an oracle spec {group: exponent}"""
     D = ctx.mods["unyt"].dimensions
@@ -145,10 +178,14 @@ def _scale(x, f):
 
 
 class Env:
-    def __init__(self, ctx, mode, reg=None, run="A", alias=False):
+    def __init__(self, ctx, mode, reg=None, run="A", alias=False, mix=None):
         self.ctx, self.mode, self.reg, self.run = ctx, mode, reg, run
         self.made = {}
         self.group = {}
+        # mix = (U1, U2): oracle views of two different units of ONE dimension. Groups "X"/"X2": run "M" (mixed) gives X-operands
+        # unit U1 and X2-operands unit U2 with the raw payload; run "C" (common) gives both unit U1, the X2 payload re-expressed by
+        # the harness through the affine oracle SI(x) = s*(x - o)
+        self.mix = mix
         # alias: the stripped run of C06 works on its own symbols x~ with the assumption x~ == x ("the same data"), so that
         # the equality of the two results is a solver verdict under that assumption and not a syntactic coincidence
         self.alias = alias and ctx.symbolic and not ctx.pinned
@@ -170,19 +207,37 @@ class Env:
         return a
 
     def factor(self, group):
-        if self.run == "A" or group in ("1", "bare", None):
+        if self.run in ("A", "M", "C") or group in ("1", "bare", None):
             return None
         return self.ctx.real("k_" + KGROUP.get(group, group), pos=True)
 
     def unit(self, group):
-        return self.ctx.mods["unyt"].Unit(UNITS[self.run][group], registry=self.reg)
+        return self.ctx.mods["unyt"].Unit(UNITS["A" if self.run in ("M", "C") else self.run][group], registry=self.reg)
+
+    def _mix_payload(self, x, group):
+        if self.mix is None or group != "X2" or self.run != "C":
+            return x
+        U1, U2 = self.mix
+
+        def conv(e):
+            return U2.si(e) / U1.s + U1.o if not (isinstance(U1.o, (int, float)) and U1.o == 0) else U2.si(e) / U1.s
+        if isinstance(x, np.ndarray):
+            out = np.empty(x.shape, dtype=x.dtype)
+            for idx in np.ndindex(*x.shape):
+                out[idx] = conv(x[idx])
+            return out
+        return conv(x)
 
     def _wrap(self, x, group):
+        if self.mix is not None and group in ("X", "X2") and self.mode != "bare":
+            U1, U2 = self.mix
+            name = U2.name if (group == "X2" and self.run == "M") else U1.name
+            return self.ctx.quantity(self._mix_payload(x, group), name, self.reg)
         if self.mode == "bare" or group in ("bare", None):
             return x
         if group == "1":
             return self.ctx.quantity(x, "dimensionless", self.reg)
-        return self.ctx.quantity(x, UNITS[self.run][group], self.reg)
+        return self.ctx.quantity(x, UNITS["A" if self.run in ("M", "C") else self.run][group], self.reg)
 
     def q(self, name, group="L", shape=(2,), pos=False, nonzero=False, increasing=False, lo=None, hi=None, pattern=None):
         ctx = self.ctx
@@ -398,12 +453,12 @@ def T(name, key, fn, **kw):
 # functions of the test-suite whitelist (and of C06/C07's text) that cannot be templated: NumPy's own implementation refuses
 # or mis-handles object payloads before/independently of any unyt code, and unyt has no handler that would be modelled
 NOT_COVERED_UNWRAPPED = {
+    "numpy.interp(left=/right= as quantities), numpy.histogram_bin_edges(range= as quantities)": "the C kernel / np.isfinite refuse the object payload before any unyt code decides (by hand: np.interp(..., left=5 cm) on fp in m returns the raw 5 labelled m)",
     "numpy.gradient": "allocates a float64 result for non-inexact dtypes (float() on a symbol)",
     "numpy.bincount": "C kernel casts weights to float64", "numpy.digitize": "C kernel casts to float64",
     "numpy.corrcoef": "clips c.real in place; .real of an object array is a read-only copy",
     "reductions with where= (np.sum/np.mean/np.prod(..., where=mask))": "object-dtype reductions have no identity, NumPy demands initial=",
     "numpy.median(keepdims=True) / isreal / iscomplex": "0-d object results are bare elements (A9), NumPy subscripts them",
-    "numpy.histogram*(range=...)": "_sanitize_range stores the limits in a float64 array (float() on a symbol when the scale is symbolic)",
     "numpy.real/imag": "object arrays route .real through the `real` ufunc, which unyt's ufunc registry does not list (float arrays never do)",
     "numpy.linalg.cholesky/qr/cond/slogdet/matrix_rank/svdvals(unwrapped LAPACK gufuncs)": "LAPACK gufuncs refuse object arrays and unyt has no handler (only handled LAPACK functions are modelled, Tier 2)",
 }
@@ -822,6 +877,16 @@ def _flat_reals(x):
     return [e for e in leaf_elements(x)]
 
 
+def _proved(ctx, formula, timeout_ms=3000):
+    """formula holds under the current path condition (z3, short budget)"""
+    import z3
+    sol = z3.Solver()
+    sol.set("timeout", timeout_ms)
+    sol.add(*ctx.ex.pc)
+    sol.add(z3.Not(formula))
+    return sol.check() == z3.unsat
+
+
 def tier2_axioms(ctx, t, calls1, calls2):
     """C07: add, for every opaque-kernel call of the two runs, the ground instances out_B == k**e * out_A of the oracle
     table's homogeneity, after checking that the kernel's arguments in run B are exactly the declared factors times run A's"""
@@ -855,7 +920,7 @@ def tier2_axioms(ctx, t, calls1, calls2):
                 f = factor(ak)
                 for x, y in zip(fa, fb):
                     want = x if f is None else x * f.t
-                    if not z3.is_true(z3.simplify(want == y)) and not z3.is_true(z3.simplify(z3.simplify(want - y, som=True) == 0)):
+                    if not z3.is_true(z3.simplify(want == y)) and not z3.is_true(z3.simplify(z3.simplify(want - y, som=True) == 0)) and not _proved(ctx, want == y):
                         raise core.Unsupported(f"tier 2: argument {ak} of {name} in run B is not the declared factor times run A's ({y} vs {want})"[:300])
         spec = HOMOG[name](it1)
         m1, m2 = _members(c1["result"]), _members(c2["result"])
@@ -1197,6 +1262,86 @@ for _f, (_key, _call, _orc, _cov) in _SWEEP.items():
             def _mk(call=_call, sh=_sh, ax=_ax):
                 return lambda N, E: call(N, E.q("a", "L", sh), ax)
             T(f"sweep/{_f}/{'x'.join(map(str, _sh)) or '0d'}/ax{_ax}", _key, _mk(), dim=_orc(_sh, _ax), cov=_cov, quick=False)
+
+
+# =========================================================================================================== mixed units of one dimension
+# QUICK tier, C07: every merging / validating function with operands in two different units of the same dimension (groups X, X2),
+# instantiated for the three MIX_KINDS. Obligation: the call raises, or it denotes the same physical quantity as the same call
+# on operands re-expressed by the harness into one common unit.
+MIXED = []
+
+
+def TM(name, key, fn, **kw):
+    kw.setdefault("groups", ("X", "X2"))
+    MIXED.append(Tpl(name, key, fn, **kw))
+
+
+def _x2(E, s1=(2,), s2=(2,)):
+    return [E.q("a", "X", s1), E.q("b", "X2", s2)]
+
+
+_M3 = np.array([True, False, True])
+TM("np.concatenate", "numpy.concatenate", lambda N, E: N.concatenate(_x2(E)))
+TM("np.concatenate/out", "numpy.concatenate", lambda N, E: N.concatenate(_x2(E), out=E.out("o", "X", (4,))))
+TM("np.vstack", "numpy.vstack", lambda N, E: N.vstack(_x2(E)))
+TM("np.hstack", "numpy.hstack", lambda N, E: N.hstack(_x2(E)))
+TM("np.dstack", "numpy.dstack", lambda N, E: N.dstack(_x2(E)))
+TM("np.column_stack", "numpy.column_stack", lambda N, E: N.column_stack(_x2(E)))
+TM("np.stack", "numpy.stack", lambda N, E: N.stack(_x2(E), axis=1))
+TM("np.block", "numpy.block", lambda N, E: N.block([_x2(E, (2, 1), (2, 1))]))
+TM("np.append", "numpy.append", lambda N, E: N.append(*_x2(E, (2,), (1,))))
+TM("np.where", "numpy.where", lambda N, E: N.where(np.array([True, False]), *_x2(E)))
+TM("np.select/choices", "numpy.select", lambda N, E: N.select([np.array([True, False]), np.array([False, True])], _x2(E)))
+TM("np.select/default", "numpy.select", lambda N, E: N.select([np.array([True, False])], [E.q("a", "X", (2,))], E.q("b", "X2", ())))
+TM("np.choose", "numpy.choose", lambda N, E: N.choose(np.array([0, 1]), _x2(E)))
+TM("np.clip/both-other", "numpy.clip", lambda N, E: N.clip(E.q("a", "X", (2,)), E.q("b", "X2", ()), E.q("c", "X2", ())))
+TM("np.clip/max-other", "numpy.clip", lambda N, E: N.clip(E.q("a", "X", (2,)), E.q("b", "X", ()), E.q("c", "X2", ())))
+TM("np.searchsorted", "numpy.searchsorted", lambda N, E: N.searchsorted(E.q("a", "X", (2,), increasing=True), E.q("b", "X2", ())))
+TM("np.intersect1d", "numpy.intersect1d", lambda N, E: N.intersect1d(*_x2(E, (2,), (1,))))
+TM("np.union1d", "numpy.union1d", lambda N, E: N.union1d(*_x2(E, (1,), (1,))))
+TM("np.setdiff1d", "numpy.setdiff1d", lambda N, E: N.setdiff1d(*_x2(E, (2,), (1,))))
+TM("np.setxor1d", "numpy.setxor1d", lambda N, E: N.setxor1d(*_x2(E, (1,), (1,))))
+TM("np.isin", "numpy.isin", lambda N, E: N.isin(*_x2(E, (2,), (1,))))
+TM("np.insert", "numpy.insert", lambda N, E: N.insert(E.q("a", "X", (2,)), 1, E.q("b", "X2", ())))
+TM("np.place", "numpy.place", lambda N, E: N.place(E.q("a", "X", (3,)), _M3, E.q("b", "X2", (2,))))
+TM("np.put", "numpy.put", lambda N, E: N.put(E.q("a", "X", (3,)), [0, 2], E.q("b", "X2", (2,))))
+TM("np.putmask", "numpy.putmask", lambda N, E: N.putmask(E.q("a", "X", (3,)), _M3, E.q("b", "X2", (3,))))
+TM("np.put_along_axis", "numpy.put_along_axis", lambda N, E: N.put_along_axis(E.q("a", "X", (2, 2)), np.array([[1], [0]]), E.q("b", "X2", (2, 1)), 1))
+TM("np.fill_diagonal", "numpy.fill_diagonal", lambda N, E: N.fill_diagonal(E.q("a", "X", (2, 2)), E.q("b", "X2", ())))
+TM("np.copyto", "numpy.copyto", lambda N, E: N.copyto(E.q("a", "X", (2,)), E.q("b", "X2", (2,))))
+TM("m.setitem", "ndarray.__setitem__", lambda N, E: E.q("a", "X", (3,)).__setitem__(slice(0, 2), E.q("b", "X2", (2,))))
+TM("m.setitem/scalar", "ndarray.__setitem__", lambda N, E: E.q("a", "X", (2,)).__setitem__(1, E.q("b", "X2", ())))
+TM("m.fill", "ndarray.fill", lambda N, E: E.q("a", "X", (2,)).fill(E.q("b", "X2", ())))
+TM("np.linspace", "numpy.linspace", lambda N, E: N.linspace(E.q("a", "X", ()), E.q("b", "X2", ()), 3))
+TM("np.pad/constant_values", "numpy.pad", lambda N, E: N.pad(E.q("a", "X", (2,)), 1, constant_values=E.q("b", "X2", ())))
+TM("np.full_like", "numpy.full_like", lambda N, E: N.full_like(E.q("a", "X", (2,)), E.q("b", "X2", ())))
+TM("np.diff/prepend", "numpy.diff", lambda N, E: N.diff(E.q("a", "X", (2,)), prepend=E.q("b", "X2", (1,))))
+TM("np.ediff1d/to_end", "numpy.ediff1d", lambda N, E: N.ediff1d(E.q("a", "X", (2,)), to_end=E.q("b", "X2", (1,))))
+TM("np.isclose", "numpy.isclose", lambda N, E: N.isclose(*_x2(E), rtol=0.25, atol=0))
+TM("np.allclose", "numpy.allclose", lambda N, E: N.allclose(*_x2(E), 0.25, 0))
+TM("np.interp/x-other", "numpy.interp", lambda N, E: N.interp(E.q("a", "X2", (2,)), E.q("b", "X", (2,), increasing=True), E.q("c", "T", (2,))), groups=("X", "X2", "T"), tier=2)
+TM("np.interp/xp-other", "numpy.interp", lambda N, E: N.interp(E.q("a", "X", (2,)), E.q("b", "X2", (2,), increasing=True), E.q("c", "T", (2,))), groups=("X", "X2", "T"), tier=2)
+# histogram family: range / bins given as quantities in the other unit (range is flat: lo, hi[, lo, hi])
+TM("np.histogram/range-hi-other", "numpy.histogram", lambda N, E: N.histogram(E.q("a", "X", (3,)), bins=2, range=(E.q("lo", "X", ()), E.q("hi", "X2", ()))), tier=2)
+TM("np.histogram/range-lo-other", "numpy.histogram", lambda N, E: N.histogram(E.q("a", "X", (3,)), bins=2, range=(E.q("lo", "X2", ()), E.q("hi", "X", ()))), tier=2)
+TM("np.histogram/range-both-other", "numpy.histogram", lambda N, E: N.histogram(E.q("a", "X", (3,)), 2, (E.q("lo", "X2", ()), E.q("hi", "X2", ()))), tier=2,
+   note="not for kind affine: two affine conversions inside one uninterpreted application are slow to equate; range-lo/hi-other cover the code")
+TM("np.histogram/bins-other", "numpy.histogram", lambda N, E: N.histogram(E.q("a", "X", (1,)), bins=E.q("b", "X2", (2,), increasing=True)), tier=2)
+TM("np.histogram2d/range-hi-other", "numpy.histogram2d", lambda N, E: N.histogram2d(E.q("a", "X", (3,)), E.q("b", "T", (3,)), bins=2,
+   range=(E.q("lo", "X", ()), E.q("hi", "X2", ()), E.q("tl", "T", ()), E.q("th", "T", ()))), groups=("X", "X2", "T"), tier=2)
+TM("np.histogram2d/bins-other", "numpy.histogram2d", lambda N, E: N.histogram2d(E.q("a", "X", (1,)), E.q("b", "T", (1,)),
+   bins=[E.q("e", "X2", (2,), increasing=True), 1]), groups=("X", "X2", "T"), tier=2)
+TM("np.histogramdd/range-hi-other", "numpy.histogramdd", lambda N, E: N.histogramdd([E.q("a", "X", (3,)), E.q("b", "T", (3,))], bins=2,
+   range=(E.q("lo", "X", ()), E.q("hi", "X2", ()), E.q("tl", "T", ()), E.q("th", "T", ()))), groups=("X", "X2", "T"), tier=2)
+TM("np.histogram_bin_edges/bins-other", "numpy.histogram_bin_edges", lambda N, E: N.histogram_bin_edges(E.q("a", "X", (1,)), bins=E.q("b", "X2", (2,), increasing=True)), tier=2)
+
+# histogram range / bins as quantities in the data's own unit: forwarding of the limits (C06) and covariance (C07)
+T("np.histogram/range-q", "numpy.histogram", lambda N, E: N.histogram(E.q("a", "L", (3,)), bins=2, range=(E.q("lo", "L", ()), E.q("hi", "L", ()))), dim=[BARE, DL], tier=2,
+  kargs={"a": "L", "range": "L"})
+T("np.histogram/bins-q", "numpy.histogram", lambda N, E: N.histogram(E.q("a", "L", (1,)), bins=E.q("b", "L", (2,), increasing=True)), dim=[BARE, DL], tier=2, kargs={"a": "L", "bins": "L"})
+T("np.histogram2d/range-q", "numpy.histogram2d", lambda N, E: N.histogram2d(E.q("a", "L", (3,)), E.q("b", "L", (3,)), bins=2,
+  range=(E.q("lo", "L", ()), E.q("hi", "L", ()), E.q("tl", "L", ()), E.q("th", "L", ()))), dim=[BARE, DL, DL], tier=2, kargs={"x": "L", "y": "L", "range": "L"}, c06=False,
+  note="C06: NumPy wants a nested range for bare data while unyt's helper reads a flat one - no common call form")
 
 
 def handler_coverage(mods):
